@@ -670,7 +670,7 @@ func c18Show(m map[string][]string) string {
 }
 
 func runC18(ctx *Ctx) error {
-	ctx.Res.Rule = "CORR: OperationDefinitions + the generated constants block vs the model for seeded (global, per-operation) requirement lists (absent, empty, {} alternatives, one or several schemes, AND/OR, scope lists, names needing sanitising incl. colliding ones); every securityprovider request editor vs the model and vs the statement's own oracle on seeded requests (existing query, headers, cookies) and credentials (any bytes); RUN: context values seen by the stub handler of the compiled server on 7 frameworks (strict on a third); non-trivial = every case"
+	ctx.Res.Rule = "CORR: OperationDefinitions + the generated constants block vs the model for seeded (global, per-operation) requirement lists (absent, empty, {} alternatives, one or several schemes, AND/OR, scope lists, names needing sanitising incl. colliding ones); every securityprovider request editor vs the model and vs the statement's own oracle on seeded requests (existing query, headers, cookies) and credentials (any bytes); RUN: context values seen by the stub handler of the compiled server on 7 frameworks (strict on a third); non-trivial = every case Session 9: TRANS Gen/SecurityRule.lean."
 	if err := c18CorrDefs(ctx, ctx.N(150, 1500)); err != nil {
 		return err
 	}
